@@ -140,13 +140,13 @@ theorem afterActions_fields (op : Opts) (b s : TS) :
   unfold afterActions
   dsimp only
   split
-  · obtain ⟨c1, c2, c3, _⟩ := constrain_fields op (updateList op
-      { s with input := List.take maxPatternLength s.input, cx := min s.cx (min s.input.length maxPatternLength) }
-      ((op.resultsOf (List.take maxPatternLength s.input) s.sort).filter (fun i => !s.excluded.contains i)))
-    obtain ⟨u1, u2, u3⟩ := updateList_fields op
-      { s with input := List.take maxPatternLength s.input, cx := min s.cx (min s.input.length maxPatternLength) }
-      ((op.resultsOf (List.take maxPatternLength s.input) s.sort).filter (fun i => !s.excluded.contains i))
-    exact ⟨c1.trans u1, c2.trans u2, c3.trans u3⟩
+  · generalize hs0 : ({ s with input := List.take maxPatternLength s.input, cx := min s.cx (min s.input.length maxPatternLength) } : TS) = s0
+    generalize hnew : ((op.resultsOf (List.take maxPatternLength s.input) s.sort).filter (fun i => !s.excluded.contains i)) = new
+    obtain ⟨c1, c2, c3, _⟩ := constrain_fields op (updateList op (constrain op s0) new)
+    obtain ⟨u1, u2, u3⟩ := updateList_fields op (constrain op s0) new
+    obtain ⟨d1, d2, d3, _⟩ := constrain_fields op s0
+    subst hs0
+    exact ⟨(c1.trans u1).trans d1, (c2.trans u2).trans d2, (c3.trans u3).trans d3⟩
   · obtain ⟨c1, c2, c3, _⟩ := constrain_fields op
       { s with input := List.take maxPatternLength s.input, cx := min s.cx (min s.input.length maxPatternLength) }
     exact ⟨c1, c2, c3⟩
